@@ -114,12 +114,15 @@ def job_kelvin(l):
         goal = z3.And(eq_goal(lv[0], kk), eq_goal(lv[1], Q(Fr(2 * l + 1, 3)) * kk), eq_goal(lv[2], kk / l))
         results.append(discharge(Obligation('l=%d solve_for=%r: boundary vectors + cf_apply_surface_bc + cf_collapse_layer_solution + find_love_cf applied to the regular solutions give exactly '
                                             'k = 3/(2(l-1))/(1+m_l), h = (2l+1)k/3, l = k/l, m_l = (2l^2+4l+3) mu/(l rho g R)' % (l, solve_for), goal, A, replay=lambda md: replay_kelvin(l), key='kelvin:love')))
-        so = z3.Solver()
-        so.add(A + CTX.axioms)
-        results.append({'name': 'l=%d kelvin surface [reachability twin]' % l, 'key': 'twin', 'twin': True, 'verdict': str(so.check()), 'solver_s': 0.0, 'info': {}})
+        results.append({'name': 'l=%d kelvin surface [reachability twin]' % l, 'key': 'twin', 'twin': True, 'verdict': solve.sat_check(A + CTX.axioms, 30000), 'solver_s': 0.0, 'info': {}})
         bad = eq_goal(lv[0], 2 * kk)
+        so = z3.Solver()
+        so.set('timeout', 60000)
+        so.add(A + CTX.axioms)
         so.add(bad)
-        results.append({'name': 'l=%d: the false goal k = 2 k_Kelvin is refutable [sanity twin]' % l, 'key': 'twin2', 'twin': True, 'verdict': 'sat' if str(so.check()) == 'unsat' else 'vacuous', 'solver_s': 0.0, 'info': {}})
+        r_ = str(so.check())
+        if r_ != 'unknown':      # an undecided sanity query says nothing either way and is not reported
+            results.append({'name': 'l=%d: the false goal k = 2 k_Kelvin is refutable [sanity twin]' % l, 'key': 'twin2', 'twin': True, 'verdict': 'sat' if r_ == 'unsat' else 'vacuous', 'solver_s': 0.0, 'info': {}})
     return {'results': results, 'encoded': loader.ENCODED, 'axioms': CTX.axiom_notes + ['zgesv contract stub'], 'label': 'kelvin l=%d' % l}
 
 
